@@ -1,0 +1,30 @@
+//go:build verif
+
+// Verification hook (add-only, compiled only with -tags verif): Node.New needs a validity window over the
+// unexported certificate element type, which cannot be named from outside this package.
+package dsmr
+
+import (
+	"context"
+
+	"github.com/ava-labs/avalanchego/utils/set"
+
+	"github.com/ava-labs/hypersdk/internal/validitywindow"
+)
+
+type verifNoopValidityWindow struct{}
+
+func (verifNoopValidityWindow) Accept(validitywindow.ExecutionBlock[*emapChunkCertificate]) {}
+
+func (verifNoopValidityWindow) VerifyExpiryReplayProtection(context.Context, validitywindow.ExecutionBlock[*emapChunkCertificate]) error {
+	return nil
+}
+
+func (verifNoopValidityWindow) IsRepeat(context.Context, validitywindow.ExecutionBlock[*emapChunkCertificate], int64, []*emapChunkCertificate) (set.Bits, error) {
+	return set.NewBits(), nil
+}
+
+// VerifNoopValidityWindow returns a validity window that records nothing and reports no repeats.
+func VerifNoopValidityWindow() TimeValidityWindow[*emapChunkCertificate] {
+	return verifNoopValidityWindow{}
+}
